@@ -106,6 +106,30 @@ def extraBeliefs (S : Nat) : List Vec :=
   let dn : Vec := mkVec S (fun s => ((S - s : Nat) : Rat) / tot)
   [c, up, dn]
 
+/-- exact stand-in for `WitnessLP::findWitness`: the candidate minus the envelope of U is concave piecewise linear, so its maximum over the
+    simplex is attained at a corner or at a vertex of U's partition; a positive maximum is a witness point -/
+def exactWitness (S : Nat) (U : List Vec) (cand : Vec) : Option Vec :=
+  if U.isEmpty then some (mkVec S (fun _ => 1 / (S : Rat))) else
+  let pts := (List.range S).map (cornerB S) ++ partitionVertices S U
+  let best := pts.foldl (fun (acc : Option (Vec × Rat)) x =>
+      let d := dot S x cand - env S U x
+      match acc with
+      | none => some (x, d)
+      | some (_, d0) => if d0 < d then some (x, d) else acc) none
+  match best with
+  | some (x, d) => if 0 < d then some x else none
+  | none => none
+
+/-- choice form of `crossSumBestAtBelief(w, projections[a], a)` -/
+def bestChoice (S O : Nat) (P : Nat → List Vec) (w : Vec) : Choice :=
+  (List.range O).map (fun o => (P o).findIdx (fun α => α == bestAtV S w (P o)))
+
+def witnessModelUnion (m : Model) (τ : Rat) (prev : List Vec) (fuel : Nat) : List Vec × Bool :=
+  (List.range m.A).foldl (fun (acc : List Vec × Bool) a =>
+    let P := projList m τ prev a
+    let st := wLoop m.S m.O P (exactWitness m.S) (bestChoice m.S m.O P) fuel (wInit m.O)
+    (acc.1 ++ st.U.map (choiceSum m.S m.O P), acc.2 && st.agenda.isEmpty)) ([], true)
+
 def vf : P String := do
   let solver ← P.tok; let _rep ← P.tok; let dyadic ← P.bool
   let m ← pomdpP; let h ← P.nat; P.bar
@@ -225,6 +249,23 @@ def vf : P String := do
       prev := cur
       t := t + 1
     return v
+  -- Witness: the agenda-loop MODEL (`wLoop`) run with an exact stand-in for the LP (`exactWitness`) from the previous RETURNED list, on
+  -- small bit-exact instances: it must empty its agenda within the fuel (hypothesis `hdone` of `witness_loop_complete`), every returned
+  -- vector must be among the vectors it collects, and its union must have the returned envelope at the harness beliefs
+  let v := if solver != "Witness" || !exact || m.S > 3 then v else Id.run do
+    let mut v := v
+    let mut prev : List Vec := [vzero m.S]
+    let mut t := 0
+    for cur in vecLists do
+      if t > 0 && !cur.isEmpty && prev.length ≤ 4 then
+        let r := witnessModelUnion m τ prev 600
+        v := { v with tag := v.tag ++ " w_loop_model" }
+        v := v.diffIf (!r.2) s!"{solver} loop_model_agenda_not_empty t={t}"
+        v := v.diffIf (r.2 && !(cur.all (fun α => memVec false m.S r.1 α))) s!"{solver} loop_model_missing_vector t={t} model={r.1.length} impl={cur.length}"
+        v := v.diffIf (r.2 && !(bs.all (fun b => closeQ tol9 (env m.S r.1 b) (env m.S cur b)))) s!"{solver} loop_model_envelope t={t}"
+      prev := cur
+      t := t + 1
+    return v
   -- findBestAtPoint's value as computed by the library at the harness beliefs
   let v := v.diffIf (vals.length != bs.length) s!"{solver} findBestAtPoint count"
   let v := (bs.zip vals).foldl (fun v (bv : Vec × Rat) =>
@@ -272,11 +313,15 @@ def activeCount (S : Nat) (Γ : List Vec) (x : Vec) : Nat :=
     induced by the planes (interior, or on an edge/face of the simplex; corners excluded) is among the returned points.  Only *simple*
     vertices are demanded (exactly S − #zero-coordinates planes active, no coincidence), so degenerate systems cannot raise an alarm. -/
 def verts : P String := do
+  let dyadic ← P.bool
   let S ← P.nat; let n ← P.nat
   let planes ← P.rep (vecP S) n; P.bar
   let k ← P.nat
   let vs ← P.rep (do let x ← vecP S; let v ← P.q; pure (x, v)) k
   P.eof
+  -- non-dyadic planes can be dependent up to rounding (1e-16): the exact solve then returns a "vertex" of a numerically singular
+  -- system which no floating-point enumeration can be asked to reproduce — such instances are not judged
+  if !dyadic then return "skip ill_conditioned"
   let exactVs := partitionVertices S planes
   let simple := exactVs.filter (fun x =>
     let zeros := ((List.range S).filter (fun s => x.get s == 0)).length
